@@ -189,6 +189,7 @@ Definition lit_text (l : lit) : str :=
   | LBool true => [116;114;117;101]
   | LBool false => [102;97;108;115;101]
   | LStr s => quote_sql s
+  | LTemporal _ _ => []          (* no text model (DATE '..' / dialect-specific): translate gives None *)
   end.
 Definition col_name (i : nat) : str := [97 + N.of_nat i].    (* a, b, c, ... *)
 Local Close Scope N_scope.
@@ -221,7 +222,7 @@ Fixpoint translate (dialect : str) (fuel : nat) (r : rexpr) : option node :=
   | S f =>
     match r with
     | RCol i => Some (0, DAtom (AText (col_name i)), expr_strength_default)
-    | RLit l => Some (0, DAtom (AText (lit_text l)), lit_strength l)
+    | RLit l => if is_temporal_lit l then None else Some (0, DAtom (AText (lit_text l)), lit_strength l)
     | _ =>
         match select dialect r with
         | None => None
